@@ -34,7 +34,7 @@ class SymUniformRng:
 
 class C02(Check):
     pid = "C02"
-    required_labels = ["log_w", "log_evidence", "ess", "ess_range", "evidence_error", "rejection"]
+    required_labels = ["log_w", "log_evidence", "ess", "ess_range", "evidence_error", "rejection", "fp/log_evidence_finite", "fp/log_evidence_error_not_nan"]
     stubs = [
         "numpy.random.Generator.uniform -> fresh symbolic draws in (0,1)",
         "float constants bit-identical to math.log(k), k<=64, are read as ln k (exact)",
@@ -57,7 +57,18 @@ class C02(Check):
             out.append({"name": f"rejection-N{n}", "kind": "rejection", "N": n})
         for n in ([2, 3] if tier == "quick" else [2, 3, 4]):
             out.append({"name": f"hyper-N{n}", "kind": "hyper", "N": n})
+        for bits in (64, 32):
+            for part in ("finite", "minus_inf"):
+                out.append({"name": f"fp{bits}-stability-{part}-N2", "kind": "fp", "part": part, "N": 2, "bits": bits, "timeout_ms": 120000})
+        if tier == "thorough":
+            for part in ("finite", "minus_inf"):
+                out.append({"name": f"fp64-stability-{part}-N3", "kind": "fp", "part": part, "N": 3, "bits": 64, "timeout_ms": 300000})
         return out
+
+    def ctx_for(self, cfg, seed):
+        if cfg["kind"] == "fp":
+            return sx.Ctx(self.pid, seed=seed, timeout_ms=cfg.get("timeout_ms", 300000), sort="F", fp_bits=cfg["bits"])
+        return sx.Ctx(self.pid, D=cfg.get("D", 1), seed=seed, timeout_ms=cfg.get("timeout_ms", 30000))
 
     # ------------------------------------------------------------------
     def harness(self, cfg):
@@ -182,7 +193,40 @@ class C02(Check):
             ctx.prove(sx.term(s3.effective_sample_size) == sx.term(s.effective_sample_size), "shift_ess")
             ctx.prove(sx.term(s3.log_evidence) == sx.term(s.log_evidence) + sx.term(c), "shift_evidence")
 
-        return {"weights": weights, "rejection": rejection, "hyper": hyper}[kind]
+        def fp(ctx):
+            # the float clause: log-weights far outside the range of exp()
+            S = sx.OPS.sort
+            bound = 1e5
+            ll = sx.sym("ll", N)
+            zero = sx.zeros(N)
+            x = sx.zeros((N, 1))
+            for t in sx.terms(ll):
+                ctx.add_assume(z3.And(z3.fpLEQ(t, z3.FPVal(bound, S)), z3.fpGEQ(t, z3.FPVal(-bound, S))))
+            fin = lambda t: z3.Not(z3.Or(z3.fpIsNaN(t), z3.fpIsInf(t)))  # noqa: E731
+            ctx.notes["fp_exact_timeout_ms"] = 20000
+            if cfg.get("part") == "minus_inf":
+                self._fp_minus_inf(ctx, N, x, zero, bound, S, fin)
+                return
+            s = Samples(x=x, log_likelihood=ll, log_prior=zero, log_q=zero, xp=sx)
+            ctx.prove(fin(sx.term(s.log_evidence)), "fp/log_evidence_finite")
+            ctx.prove(z3.Not(z3.fpIsNaN(sx.term(s.log_evidence_error))), "fp/log_evidence_error_not_nan")
+            ctx.prove(z3.Not(z3.fpIsNaN(sx.term(s.effective_sample_size))), "fp/ess_not_nan")
+            ctx.prove(fin(sx.term(s.effective_sample_size)), "fp/ess_finite")
+
+        def _fp_minus_inf(ctx, N, x, zero, bound, S, fin):
+            # -inf entries (zero-weight samples) next to at least one finite one
+            ll2 = sx.sym("lm", N)
+            t2 = sx.terms(ll2)
+            minf = z3.fpMinusInfinity(S)
+            ctx.add_assume(z3.And(z3.fpLEQ(t2[0], z3.FPVal(bound, S)), z3.fpGEQ(t2[0], z3.FPVal(-bound, S))))
+            for t in t2[1:]:
+                ctx.add_assume(z3.Or(t == minf, z3.And(z3.fpLEQ(t, z3.FPVal(bound, S)), z3.fpGEQ(t, z3.FPVal(-bound, S)))))
+            s2 = Samples(x=x, log_likelihood=ll2, log_prior=zero, log_q=zero, xp=sx)
+            ctx.prove(fin(sx.term(s2.log_evidence)), "fp/minus_inf_entries_log_evidence_finite")
+            ctx.prove(z3.Not(z3.fpIsNaN(sx.term(s2.effective_sample_size))), "fp/minus_inf_entries_ess_not_nan")
+
+        self._fp_minus_inf = _fp_minus_inf
+        return {"weights": weights, "rejection": rejection, "hyper": hyper, "fp": fp}[kind]
 
     # ------------------------------------------------------------------
     def to_cex(self, fl):
@@ -196,6 +240,12 @@ class C02(Check):
             "lp": env_array(env, "lp", (N,)),
             "lq": env_array(env, "lq", (N,)),
         }
+        if fl["cfg"]["kind"] == "fp":
+            cex["bits"] = fl["cfg"]["bits"]
+            cex["lm"] = env_array(env, "lm", (N,))
+            raw = fl["env"]
+            cex["ll"] = [raw.get(f"ll_{i}") for i in range(N)]
+            cex["lm"] = [raw.get(f"lm_{i}") for i in range(N)]
         if fl["cfg"]["kind"] == "rejection":
             cex["u"] = env_array(env, "u1", (N,), default=0.5)
         if fl["cfg"]["kind"] == "hyper":
@@ -231,6 +281,8 @@ def replay_c02(cex):
     from aspire.samples import Samples
     from aspire.utils import effective_sample_size
 
+    if cex.get("kind") == "fp":
+        return replay_fp(cex)
     ll = np.asarray(cex["ll"], float)
     lp = np.asarray(cex["lp"], float)
     lq = np.asarray(cex["lq"], float)
@@ -286,6 +338,33 @@ def replay_c02(cex):
             close(s3.log_evidence, float(s.log_evidence) + c, "shifted log_evidence")
             close(s3.effective_sample_size, s.effective_sample_size, "shifted ESS")
     return (len(bad) > 0, "; ".join(bad[:4]) if bad else "all C02 clauses hold on this input")
+
+
+def replay_fp(cex):
+    from aspire.samples import Samples
+
+    dt = np.float64 if cex.get("bits", 64) == 64 else np.float32
+    bad = []
+
+    def val(v):
+        if v is None:
+            return 0.0
+        return float(v)
+
+    N = cex["N"]
+    with np.errstate(all="ignore"):
+        for key, what in (("ll", "finite log-weights"), ("lm", "log-weights with -inf entries")):
+            w = np.array([val(v) for v in cex[key]], dtype=dt)
+            if np.isnan(w).any() or np.all(np.isinf(w)):
+                continue
+            s = Samples(x=np.zeros((N, 1), dtype=dt), log_likelihood=w, log_prior=np.zeros(N, dtype=dt), log_q=np.zeros(N, dtype=dt), dtype=dt)
+            if not np.isfinite(s.log_evidence):
+                bad.append(f"{what} {w.tolist()}: log_evidence = {s.log_evidence}")
+            if np.isnan(s.effective_sample_size) or (key == "ll" and not np.isfinite(s.effective_sample_size)):
+                bad.append(f"{what} {w.tolist()}: effective_sample_size = {s.effective_sample_size}")
+            if key == "ll" and np.isnan(s.log_evidence_error):
+                bad.append(f"{what} {w.tolist()}: log_evidence_error = {s.log_evidence_error}")
+    return (len(bad) > 0, "; ".join(bad[:3]) if bad else "finite on this input")
 
 
 if __name__ == "__main__":
